@@ -338,6 +338,50 @@ fn run(ctx: &RunCtx) {
             Err(f) => CaseResult::Fail(f),
         }
     });
+    // (e) the same programs as required modules of a small bundle: every rule x 3 generators x
+    // {path, luau} require mode; an entry shorter and an entry longer than the modules
+    let modules: Vec<String> = programs.iter().map(|p| if p.trim_end().ends_with("lib") || p.contains("return f(LIMIT)") { format!("{};\n", p.trim_end()) } else { format!("{}\nreturn {{ 1, 2 }};\n", p.trim_end().trim_start_matches("#!/usr/bin/env lua")) }).collect();
+    ctx.enumerate("bundled_rules", nr * 3 * 2 * 2 * modules.len() as u64, |i, st| {
+        let m = (i % modules.len() as u64) as usize;
+        let long_entry = (i / modules.len() as u64) % 2 == 1;
+        let luau = (i / (modules.len() as u64 * 2)) % 2 == 1;
+        let g = ((i / (modules.len() as u64 * 4)) % 3) as usize;
+        let r = cfg::ALL_RULES[(i / (modules.len() as u64 * 12)) as usize];
+        let v = cfg::valid_variants(r);
+        let rule = cfg::with_rule(r, &v[(m + g) % v.len()]);
+        let config_text = format!("{{ rules: [{}], generator: {}, bundle: {{ require_mode: \"{}\" }} }}", rule, generators[g], if luau { "luau" } else { "path" });
+        let mut entry = String::from("local m = require(\"./m\")\nlocal d = require(\"./data.json\")\nprint(m, d);\n");
+        if long_entry {
+            for k in 0..120 {
+                entry.push_str(&format!("print(\"padding line {} of the entry file, longer than the module\")\n", k));
+            }
+        }
+        let files = vec![("src/main.lua".to_string(), entry), ("src/m.lua".to_string(), modules[m].clone()), ("src/data.json".to_string(), "{ \"a\": [1, 2, null], \"b c\": \"x\" }".to_string())];
+        st.class("bundled_rule_case");
+        let config = match dl::parse_config(&config_text) {
+            Ok(c) => c,
+            Err(_) => return CaseResult::Discard("configuration rejected"),
+        };
+        let replay = json!({"kind": "bundle", "files": files, "config": config_text});
+        match dl::process_project(&files, "src/main.lua", "out/main.lua", config) {
+            Err(dl::DlError::Panic(p)) => CaseResult::Fail(panic_failure("process (bundling)", p, replay)),
+            Err(_) => CaseResult::Pass { nontrivial: None },
+            Ok((resources, errs)) => {
+                if !errs.is_empty() {
+                    if errs.iter().any(|e| !e.contains("src/")) {
+                        return CaseResult::Fail(Failure::new(format!("an error does not name the file it is about: {:?}", errs), replay));
+                    }
+                    return CaseResult::Pass { nontrivial: None };
+                }
+                let Ok(out) = resources.get("out/main.lua") else { return CaseResult::Fail(Failure::new("no bundle written and no error reported", replay)) };
+                match dl::dl_parse(&out, false) {
+                    Err(p) => CaseResult::Fail(panic_failure("re-parsing the bundle", p, replay)),
+                    Ok(Err(e)) => CaseResult::Fail(Failure::new(format!("the bundle does not parse again with darklua's own parser: {}\n--- config\n{}\n--- output\n{}", e, config_text, out), replay)),
+                    Ok(Ok(_)) => CaseResult::Pass { nontrivial: Some(hash_parts(&[config_text.as_bytes(), &[m as u8, long_entry as u8]])) },
+                }
+            }
+        }
+    });
     ctx.isolate("texts");
     ctx.isolate("pipelines");
     let n = ctx.tier.pick(600_000, 20_000_000);
@@ -389,6 +433,26 @@ fn replay(v: &Value) -> Result<(), String> {
         Some("pipeline") => check_pipeline(v.get("source").and_then(|s| s.as_str()).ok_or("malformed C12 replay")?, v.get("config").and_then(|s| s.as_str()).ok_or("malformed C12 replay")?)
             .map(|_| ())
             .map_err(|f| f.message),
+        Some("bundle") => {
+            let files: Vec<(String, String)> = serde_json::from_value(v.get("files").cloned().ok_or("malformed C12 replay")?).map_err(|e| e.to_string())?;
+            let config_text = v.get("config").and_then(|s| s.as_str()).ok_or("malformed C12 replay")?;
+            let config = dl::parse_config(config_text).map_err(|e| format!("harness: configuration rejected: {}", e))?;
+            match dl::process_project(&files, "src/main.lua", "out/main.lua", config) {
+                Err(dl::DlError::Panic(p)) => Err(format!("process (bundling): PANIC {}", p)),
+                Err(_) => Ok(()),
+                Ok((resources, errs)) => {
+                    if !errs.is_empty() {
+                        return Ok(());
+                    }
+                    let out = resources.get("out/main.lua").map_err(|_| "no bundle written and no error reported".to_string())?;
+                    match dl::dl_parse(&out, false) {
+                        Err(p) => Err(format!("re-parsing the bundle: PANIC {}", p)),
+                        Ok(Err(e)) => Err(format!("the bundle does not parse again with darklua's own parser: {}", e)),
+                        Ok(Ok(_)) => Ok(()),
+                    }
+                }
+            }
+        }
         Some("abort") => {
             // re-run the shard's generator on the recorded tape, in this process
             let tape = unhex(v.get("tape").and_then(|s| s.as_str()).unwrap_or(""));
